@@ -65,6 +65,17 @@ CLAIMED = {
         "scale family.",
    ref="5/C01", note=TB + "LSQR and LAPACK lstsq are judged (tolerance 2^-23 on scaled residuals), not modelled; ln and reciprocals enter as certified "
         "float approximants.", technique="Coq proof of WLS optimality + row-form model; exact dyadic residual tests via vm_compute"),
+ "C02": dict(
+   text="Proof: WLS optimality / uniqueness of estimable quantities for any rows (shared with C01); over REGENERATED source text (Gen/GenFromI.v: every "
+        "from_i = np.concatenate(...) of the double-ended solver) the scatter lists are, for all nt, nx, nta and alpha locations, exactly the documented "
+        "positions of the reduced parameters in the solver's column order, and pairwise different (T9, T10; the pre-repair text is refuted: finding F2); "
+        "a one-dimensional null space with a splice (T12) - hence estimable quantities are what is compared; the weighted time average of alpha outside the "
+        "sections is the WLS estimate of a constant (T11). Each run compares X, y, w of solver='external' (forward, backward, EQ1-EQ3 rows) with the row-form "
+        "model, judges p_val by the exact normal-equation test and p_cov by the generalised-inverse identity, checks the zero pattern of p_cov, alpha = 0 "
+        "with zero variance at the first reference location, and recomputes alpha outside the sections exactly.",
+   ref="5/C02", note=TB + "LSQR / lstsq judged (2^-23), not modelled; the generalised-inverse covariance evaluator (cov_ok_g) is executable specification, "
+        "its soundness lemma is not proved (the normal-equation evaluator's is); translator vlib/translators/fromi.py.",
+   technique="Coq proof over translator-regenerated scatter lists + WLS theorems; exact dyadic residual tests via vm_compute"),
 }
 NA = {}
 ALL = [f"C{i:02d}" for i in range(1, 21)]
